@@ -28,6 +28,8 @@ impl JsonlWriter {
     pub fn push(&mut self, v: &Value) {
         serde_json::to_writer(&mut self.0, v).unwrap();
         self.0.write_all(b"\n").unwrap();
+        // engines may die (stack overflow, abort) in the code under test: keep what was recorded
+        self.0.flush().unwrap();
     }
     pub fn finish(mut self) {
         self.0.flush().unwrap();
